@@ -34,6 +34,9 @@ def gen_value(rng):
     return "\n".join(lines) + rng.choice(["", "\n"])
 
 
+BADKEYS = ["A:B", "#X", "A B", "", " X", "-x", "X\n", "X:", "\u00e9", "A\tB", ":", "Package:x"]
+
+
 def gen_key(rng, doc, pi, p_missing=0.2):
     para = doc.paras[pi] if doc.paras else []
     if para and rng.random() > p_missing:
@@ -84,6 +87,9 @@ def generate_case(rng_world, rng_swarm, rng_sched, profile, tier="quick"):
     # part of the schedule.  The dump is always compared; everything is read at the end.
     observe_rate = rng_swarm.choice([1.0, 1.0, 0.5, 0.15, 0.0])
     tok_rate = rng_swarm.choice([0.0, 0.0, 0.1, 0.4])
+    # steps during which nobody renders or reads the document at all (the dump is an
+    # observation too): everything is checked at the next step that looks
+    blind_rate = rng_swarm.choice([0.0, 0.0, 0.3, 0.7])
     # key objects handed out by the library itself (iteration of a paragraph) used as keys
     iterkey_rate = rng_swarm.choice([0.0, 0.0, 0.15, 0.5])
     # a client that repeats one call many times (a loop, a retry)
@@ -103,6 +109,10 @@ def generate_case(rng_world, rng_swarm, rng_sched, profile, tier="quick"):
             st["key"] = gen_key(rng_sched, doc, pi % max(len(doc.paras), 1))
             dupc = pi < len(doc.paras) and is_dup(doc.paras[pi])
             st["idx"] = gen_idx(rng_sched, profile, dupc)
+        if k == "set" and rng_sched.random() < 0.04:
+            # a name that is no field name: must be refused, whatever else is true
+            st["key"] = rng_sched.choice(BADKEYS)
+            st["idx"] = None
         if k == "set":
             st["val"] = gen_value(rng_sched)
             st["route"] = rng_sched.choice(["item", "item", "item", "simple", "raw"])
@@ -116,6 +126,10 @@ def generate_case(rng_world, rng_swarm, rng_sched, profile, tier="quick"):
             st["build"] = rng_sched.choice(["setitem", "from_dict"])
             st["at"] = rng_sched.choice([0, 0, 1, 2, 9])
             npar += 1
+        if k in ("set", "del", "get", "sort") or k in ORDER_OPS:
+            if rng_sched.random() < blind_rate:
+                st["blind"] = True
+                st["observe"] = False
         if "key" in st and "tok" not in st and rng_sched.random() < iterkey_rate:
             st["keysrc"] = "iter"
         if k in ("append", "insert") and rng_sched.random() < iterkey_rate:
@@ -124,6 +138,13 @@ def generate_case(rng_world, rng_swarm, rng_sched, profile, tier="quick"):
         if k not in ("append", "insert", "gc", "drop_held") and rng_sched.random() < rep_rate:
             for _ in range(rng_sched.choice([1, 2, 5, 20, 60, 60, 90])):
                 steps.append(dict(st, rep=True))
+        if k == "set" and rng_sched.random() < 0.15:
+            # do, then undo: the field just assigned is deleted again
+            undo = {"op": "del", "p": st["p"], "via": rng_sched.choice(["held", "fresh", "view"]),
+                    "observe": st["observe"], "key": st["key"], "idx": st.get("idx")}
+            if st.get("blind"):
+                undo["blind"] = True
+            steps.append(undo)
         if k == "set" and rng_sched.random() < 0.12:
             # the same assignment once more, on another (or the same) paragraph
             again = dict(st)
@@ -202,6 +223,7 @@ class Run(object):
         self.doc = Doc.from_json(case["world"]["doc"])
         self.dupfile = bool(case["world"].get("dup"))
         self.tokens = {}
+        self.unchecked = False
         text = self.doc.text()
         self.file = parse(text, dup=True)
         self.dupclass = [is_dup(p) for p in self.doc.paras]
@@ -270,6 +292,51 @@ class Run(object):
                 raw += "\n"
             return lambda: para.set_field_from_raw_string(k, raw)
         return lambda: h.__setitem__(k, val)
+
+    def resolve_pending(self, si, op):
+        """Somebody looks at the document again: fields assigned in the meantime get their
+        exact text from the paragraph's own parts (validated like any edited field), then the
+        whole document is compared with the model."""
+        if not self.unchecked:
+            return
+        self.unchecked = False
+        from props.repro_common import norm_value
+        segs_all = [s for p in self.doc.paras for s in p]
+        if any(s.pending for s in segs_all):
+            paras = list(self.file)
+            if len(paras) != len(self.doc.paras):
+                raise Violation("paragraph-count-differs", op, {"step": si, "got": len(paras),
+                                                                "want": len(self.doc.paras)})
+            for pi, (p, mp_) in enumerate(zip(paras, self.doc.paras)):
+                kvs = list(p.iter_parts())
+                where = {"step": si, "paragraph": pi, "after": "steps without any rendering"}
+                if len(kvs) != len(mp_):
+                    where.update(got=[str(kv.field_name) for kv in kvs],
+                                 want=[s.name for s in mp_])
+                    raise Violation("reparsed-document-differs-from-model", op, where)
+                for kv, seg in zip(kvs, mp_):
+                    if not seg.pending:
+                        continue
+                    x = kv.convert_to_text()
+                    want_name, want_value = seg.name, seg.value
+                    if not x.startswith(seg.comment):
+                        where.update(field_text=x, comment=seg.comment)
+                        raise Violation("bytes-outside-the-edited-field-changed", op, where)
+                    body = x[len(seg.comment):]
+                    got = mini_parse_field(body)
+                    if got is None or (not body.endswith("\n") and seg is not segs_all[-1]):
+                        where.update(new_field_text=body)
+                        raise Violation("edited-field-is-not-one-field-on-its-own-lines", op,
+                                        where)
+                    if got[0] != want_name:
+                        where.update(got_name=got[0], want_name=want_name)
+                        raise Violation("field-name-spelling-changed", op, where)
+                    if norm_value(got[1]) != want_value:
+                        where.update(got_value=norm_value(got[1]), want_value=want_value)
+                        raise Violation("edited-field-reads-back-differently", op, where)
+                    seg.body = body
+                    seg.pending = False
+        self.check_document(si, op + " (first look after steps without any rendering)")
 
     # -- whole-document checks
     def check_document(self, si, op, hole=None, exact=True, tolerate_final_newline=False):
@@ -404,9 +471,17 @@ class Run(object):
                     out.probe("name_token_as_key")
                 k = tok
                 key = str(tok.text)
+        blind = bool(st.get("blind"))
+        if not blind:
+            self.resolve_pending(si, op)
         before = self.doc.copy()
-        before_dump = self.file.dump()
-        last_unterminated = not before_dump.endswith("\n") and before_dump != ""
+        if blind:
+            out.probe("step_without_any_rendering")
+            before_dump = None
+            last_unterminated = False
+        else:
+            before_dump = self.file.dump()
+            last_unterminated = not before_dump.endswith("\n") and before_dump != ""
         hole = None
         expect = None
         res = None
@@ -417,6 +492,9 @@ class Run(object):
                 res = para[sel[0]].value
             elif op == "set":
                 val = st["val"]
+                if key in BADKEYS:
+                    out.probe("assignment_under_an_invalid_field_name")
+                    raise Expect("*")
                 o = occ(para, key)
                 reasons = []
                 if assignable(val) is False:
@@ -473,8 +551,8 @@ class Run(object):
                 call = self.set_call(h, pi, k, val, st.get("route", "item"))
             elif op == "del":
                 sel = resolve(para, dupc, key, idx, "del")
-                if not before_dump.endswith("\n") and pi == len(self.doc.paras) - 1 and \
-                        sel[-1] == len(para) - 1:
+                if before_dump is not None and not before_dump.endswith("\n") and \
+                        pi == len(self.doc.paras) - 1 and sel[-1] == len(para) - 1:
                     out.probe("delete_last_field_of_unterminated_document")
                 for j in reversed(sel):
                     del para[j]
@@ -571,10 +649,13 @@ class Run(object):
                  "ridx": st.get("ridx"), "value": st.get("val")}
         if expect is not None:
             out.count("failing_ops")
-            if exc is None or exc not in expect:
+            if exc is None or (exc not in expect and "*" not in expect):
                 where.update(got_exception=exc, want_exception=list(expect),
                              dump_after=self.file.dump())
                 raise Violation("failing-operation-did-not-fail-as-specified", op, where)
+            if blind:
+                self.unchecked = True
+                return True       # the model is unchanged; compared at the next look
             if self.file.dump() != before_dump:
                 where.update(before=before_dump, after=self.file.dump())
                 raise Violation("failed-operation-changed-the-document", op, where)
@@ -588,6 +669,13 @@ class Run(object):
                 where.update(got=got, want=res)
                 raise Violation("read-differs-from-model", op, where)
             return True
+        if blind:
+            if hole is not None:
+                _, _, want_name, want_value, seg, _ = hole
+                seg.body = "%s: %s\n" % (want_name, want_value)     # provisional text
+                seg.pending = True
+            self.unchecked = True
+            return True
         self.check_document(si, op, hole=hole)
         return True
 
@@ -596,6 +684,7 @@ class Run(object):
         from props.repro_common import norm_value
         out = self.out
         op = st["op"]
+        self.resolve_pending(si, op)
         fields = st["fields"]
         d = {}
         for k, v in fields:
@@ -735,10 +824,12 @@ def execute_case(case, profile):
             if st["op"] not in ("get", "gc", "drop_held"):
                 mutations += 1
             if st.get("observe", True):
+                run.resolve_pending(si, st["op"])
                 run.check_reads(si, st["op"])
             else:
                 out.probe("step_without_observation")
             out.states.add(stable_hash(run.doc.to_json()))
+        run.resolve_pending(len(case["trace"]), "end")
         run.check_reads(len(case["trace"]), "end")
         out.nontrivial = mutations >= 2
     finally:
